@@ -543,6 +543,8 @@ class Ex:
     def operand(self, frame, op):
         if op[0] == "const":
             return self.const(op[1])
+        if op[0] == "fnitem":
+            return Opaque("fn:" + op[1])
         cell, path, rng = self.resolve(frame, op[1])
         v = self.read_at(cell, path, rng)
         if v is None:
